@@ -53,11 +53,11 @@ BOUNDS = {
     "quick": "all directed graphs over 1 and 2 states (every subset of ordered pairs incl. self-loops; and one of the variants {all self-loops internal, an internal "
     "transition between different states, a from_.any() edge to one target, a duplicated edge, from_.any() + internal}), all graphs over 3 states "
     "with 1..3 edges (the variants on the single-edge ones); "
-    "the states come from State attributes, from States.from_enum over an IntEnum whose first member is 0 (single final member passed bare), or from a States({...}) collection declared below the from_.any() event (quick: from_enum on the 1- and 2-state graphs only); for every graph all assignments of initial/final flags and strict_states (symbolic); every definition is stated twice (the verdict may not depend on history) and an empty subclass with its own strict_states is validated again.",
+    "the states come from State attributes, from States.from_enum over an IntEnum whose first member is 0 (single final member passed bare), or from a States({...}) collection declared below the from_.any() event (quick: from_enum on the 1- and 2-state graphs only); for every graph all assignments of initial/final flags and strict_states (symbolic); every definition is stated twice (the verdict may not depend on history) and an empty subclass with its own strict_states is validated again; a subclass adding a trap state is judged by its own strict_states.",
     "thorough": "all 512 edge sets over 3 states, with the internal / from_.any() / duplicate variants.",
 }
 OUTSIDE = "4 and 5 states (2^16 and 2^25 edge sets); inheritance as the source of the states (C15); from_enum(use_enum_instance=True); abstract base classes without states"
-OBLIGATIONS = ["states-from-enum", "states-from-collection", "subclass-revalidated", "accepted", "warned", "rejected", "rejected-strict", "any-edge", "internal-self", "internal-nonself-rejected", "no-events"]
+OBLIGATIONS = ["subclass-adds-trap-state", "states-from-enum", "states-from-collection", "subclass-revalidated", "accepted", "warned", "rejected", "rejected-strict", "any-edge", "internal-self", "internal-nonself-rejected", "no-events"]
 ASSUMPTIONS = [
     "oracle: accept iff >=1 event, exactly one initial state, no transition out of a final state, internal only on self-transitions, all states reachable from the initial one; "
     "then a non-final state without outgoing transition, or (if a final state exists) without a path to a final state, raises under strict_states and warns otherwise",
@@ -245,6 +245,22 @@ def run(ctx, params):
         if sub != exp_sub:
             raise Mismatch(f"subclass-not-revalidated:{shape}", f"class {got}; `class Sub(M, strict_states={st2}): pass` was {sub}, expected {exp_sub} ({soft})", desc)
         ctx.cover("subclass-revalidated")
+        # a subclass that ADDS a trap state: judged by the subclass's own strict_states, whatever the base's was
+        if soft is None and not fin[ini.index(True)]:
+            strict3 = ctx.sym_bool("strict.sub2")
+            with warnings.catch_warnings(record=True) as caught4:
+                warnings.simplefilter("always")
+                try:
+                    extra = State()
+                    type(StateMachine)("C09Sub2", (cls,), {"extra": extra, "to_extra": getattr(cls, ids[ini.index(True)]).to(extra)}, strict_states=strict3)
+                    sub2 = "warned" if [w for w in caught4 if issubclass(w.category, UserWarning)] else "accepted"
+                except InvalidDefinition:
+                    sub2 = "raised"
+            st3 = True if strict3 else False
+            exp2 = "raised" if st3 else "warned"
+            if sub2 != exp2:
+                raise Mismatch(f"subclass-strictness-not-its-own:{shape}", f"base (strict_states={st}) accepted; `class Sub(M, strict_states={st3})` adding a state without outgoing transition was {sub2}, expected {exp2}", desc)
+            ctx.cover("subclass-adds-trap-state")
     if expect == "accepted":
         ctx.cover("accepted")
     elif expect == "warned":
